@@ -6,3 +6,4 @@ pub mod util;
 pub mod archive;
 pub mod eng_layers;
 pub mod eng_writer;
+pub mod eng_repair;
